@@ -230,6 +230,35 @@ def run_trace(check, trace):
     sys.stdout = _NullOut()      # the SUT prints; only the harness reports
     try:
         return check.execute(json.loads(json.dumps(trace)))
+    except HarnessError:
+        raise
+    except Exception as exc:  # noqa: BLE001
+        # An exception that escapes execute() is a harness fault -- unless it
+        # was raised by (or below) repository code while the harness was
+        # performing a fault-free *precondition* operation (building the
+        # stored state, computing an expectation through a local accessor).
+        # That is the repository failing an operation nobody injected a
+        # fault into, and is reported against the property, not as exit 2.
+        frames = traceback.extract_tb(exc.__traceback__)
+        src = os.path.realpath(os.path.join(REPO_ROOT, "src")) + os.sep
+        through_repo = [f for f in frames
+                        if os.path.realpath(f.filename).startswith(src)]
+        if not through_repo:
+            raise
+        where = through_repo[-1]
+        res = Result()
+        name = type(exc).__name__
+        res.violate(
+            f"{check.pid}/precondition-op-fails",
+            f"a fault-free operation performed to set the scenario up raised "
+            f"{name}: {exc!s:.200} at "
+            f"{where.filename[len(src):]}:{where.lineno}",
+            key=f"{check.pid}/precondition-op-fails/{name}")
+        res.digest = hashlib.sha256(
+            f"precondition:{name}:{where.filename[len(src):]}".encode()
+        ).hexdigest()
+        res.sig = "precondition-op-fails"
+        return res
     finally:
         sys.stdout = saved
 
